@@ -36,7 +36,7 @@ TAG_FIT = 'lsml:_BaseLSML._fit'
 TAG_GRAD = 'lsml:_BaseLSML._gradient'
 PRIORS = ('identity', 'covariance', 'random', 'array')
 GRAB = ('quadruplets', 'vab', 'vcd', 'prior_inv', 'M', 'it', 's_best')
-K_STAT = 10.0          # accepted ||g|| / tol at an early stop
+K_STAT = 3.0           # accepted ||g|| / tol at an early stop
 INCLUDE_COLLAPSED = True   # one edge instance per run with a zero-length comparison pair (c == d); the quantifier says "all quadruplet sets"
 WEIGHT_KINDS = ('none', 'nonuniform', 'equal-array', 'nonuniform', 'list', 'nonuniform-small', 'nonuniform-large', 'int-array')
 
@@ -265,7 +265,7 @@ def check_instance(ml, inst, stats=None):
   # ---- oracle self-test: analytic gradient of the documented objective vs finite differences ----
   rng = np.random.RandomState(inst['wseed'] ^ 0x5bd1)
   T = spd_from(rng, inst['d'], 20.0) * np.trace(M0) / inst['d']
-  for P in (M, T):
+  for P in ((M, T) if ev[0] >= 1e-4 * ev[-1] else (T,)):      # finite differences are meaningless at a nearly singular M
     e = fd_selftest(P, M0inv, vab, vcd, w, rng)
     stats['fd'] = max(stats.get('fd', 0.0), e)
     if e > 1e-4:
